@@ -25,6 +25,8 @@ namespace S3V.Secrets
 /-- which macro/attribute makes the site (the `print` family is `println!/eprintln!/print!/eprint!/dbg!`) -/
 inductive Macro where
   | trace | debug | info | warn | error | instrument | print
+  | errorMsg   -- `s3_error!`, `invalid_request!`, `try_!`, … : the arguments become an error's message / source
+  | format     -- `format!`, `write!`, `writeln!`, `format_args!`, `panic!`, `unreachable!`, …
   deriving DecidableEq, Repr
 
 /-- how an expression is captured at a site -/
